@@ -46,6 +46,7 @@ namespace bxdecay0 {
                          const double thlev_,
                          double & tdlev_)
   {
+    BXDECAY0_VERIF_SCOPE("nucltransK", Egamma_, Ebinde_, conve_, convp_, tclev_, thlev_);
     static double emass = decay0_emass();
     double p            = (1. + conve_ + convp_) * prng_();
     if (p <= 1.) {
